@@ -409,10 +409,10 @@ impl World {
         Ok(Delivered { reply_sent })
     }
 
-    /// Heartbeat observation model (C10/C11). Mirrors what a digest can do to a copy: the first
-    /// value seen by a copy whose stored heartbeat is 0 (new, or just reset) and any strictly higher
-    /// value are observations. The digest is read before the delta of the same message is applied,
-    /// so the comparison is with the heartbeat stored before the step.
+    /// Heartbeat observation model (C10/C11). A digest value is an observation when it exceeds every
+    /// value this node has seen for the member since it created the copy - whatever the node has
+    /// on record at the moment. (An earlier version compared with the stored heartbeat and thereby
+    /// inherited defect F-8: a gossip reset zeroed the record and the model with it.)
     pub fn update_obs(&mut self, p: usize, before: &NodeView, digest: &BTreeMap<&Id, u64>, after: &NodeView) {
         let now = self.now_ms;
         let node = self.nodes[p].as_mut().unwrap();
